@@ -895,3 +895,50 @@ Proof.
   - apply expected_calls_nodup. exact Hnd.
   - intros k d. apply expected_calls_In.
 Qed.
+
+(* ------------------------------------------------------------------------------------------ *)
+(* a whole run does not depend on the order of TypesInfo.Defs                                 *)
+
+Definition pkg_wf (p : pkg) : Prop :=
+  NoDup (map td_name (filter td_pkgscope (pk_defs p))) /\ (forall d, In d (pk_defs p) -> NoDup (keys (td_tags d))).
+(* the same package, its definitions met in another order *)
+Definition pkg_perm (p p' : pkg) : Prop :=
+  pk_id p = pk_id p' /\ pk_direct p = pk_direct p' /\ pk_filetags p = pk_filetags p' /\ Permutation (pk_defs p') (pk_defs p).
+
+Lemma session_default_perm : forall p p' g G,
+  NoDup (keys G) -> pkg_wf p -> pkg_perm p p' ->
+  session_default fixed_all p g G = session_default fixed_all p' g G.
+Proof.
+  intros p p' g G HG [Hnd Htags] (Hid & _ & Hf & Hp).
+  unfold session_default, session. rewrite <- Hid, <- Hf. cbn [fixed_all fx_scope fx_defer].
+  assert (HP : NoDup (keys (pkg_tags (pk_filetags p)))) by apply merge_nodup.
+  rewrite (do_generate_spec g G _ (pk_defs p) (pk_defs p) _ HG HP Htags Hnd (Permutation_refl _) (Permutation_refl _)).
+  rewrite (do_generate_spec g G _ (pk_defs p) (pk_defs p') _ HG HP Htags Hnd Hp (Permutation_refl _)).
+  reflexivity.
+Qed.
+
+Lemma pkg_gens_perm : forall p p' gens G,
+  NoDup (keys G) -> pkg_wf p -> pkg_perm p p' ->
+  pkg_gens fixed_all p gens G = pkg_gens fixed_all p' gens G.
+Proof.
+  intros p p' gens G HG Hwf Hp. induction gens as [|g r IH]; cbn [pkg_gens]; [reflexivity|].
+  rewrite (session_default_perm p p' g G HG Hwf Hp). rewrite IH. reflexivity.
+Qed.
+
+Lemma pkg_execute_perm : forall p p' gens G,
+  NoDup (keys G) -> pkg_wf p -> pkg_perm p p' ->
+  pkg_execute fixed_all p gens G = pkg_execute fixed_all p' gens G.
+Proof.
+  intros p p' gens G HG Hwf Hp. unfold pkg_execute. rewrite (pkg_gens_perm p p' gens G HG Hwf Hp).
+  destruct Hp as (Hid & _). rewrite Hid. reflexivity.
+Qed.
+
+Lemma execute_perm : forall all pkgs pkgs' gens G,
+  NoDup (keys G) -> Forall pkg_wf pkgs -> Forall2 pkg_perm pkgs pkgs' ->
+  execute fixed_all all pkgs gens G = execute fixed_all all pkgs' gens G.
+Proof.
+  intros all pkgs pkgs' gens G HG Hwf H2. induction H2 as [|p p' r r' Hp Hr IH]; [reflexivity|].
+  inversion Hwf as [|? ? Hwfp Hwfr]; subst. cbn [execute].
+  rewrite (pkg_execute_perm p p' gens G HG Hwfp Hp). rewrite (IH Hwfr).
+  destruct Hp as (_ & Hd & _). rewrite Hd. reflexivity.
+Qed.
